@@ -552,6 +552,72 @@ class SymStr(str):
         sc = chars_of(self)
         return len(sc) > 0 and all(truth(char_in(c, WS)) for c in sc)
 
+    def partition(self, sep):
+        pc = chars_of(sep)
+        if not pc:
+            raise ValueError('empty separator')
+        sc = chars_of(self)
+        i = SymStr.find(self, sep)
+        if i < 0:
+            return (mk(sc), '', '')
+        return (mk(sc[:i]), mk(pc), mk(sc[i + len(pc):]))
+
+    def rpartition(self, sep):
+        pc = chars_of(sep)
+        if not pc:
+            raise ValueError('empty separator')
+        sc = chars_of(self)
+        i = SymStr.rfind(self, sep)
+        if i < 0:
+            return ('', '', mk(sc))
+        return (mk(sc[:i]), mk(pc), mk(sc[i + len(pc):]))
+
+    def rsplit(self, sep=None, maxsplit=-1):
+        if maxsplit == -1:
+            return SymStr.split(self, sep)
+        if sep is None:
+            raise Unsupported('rsplit(None, maxsplit)')
+        pc = chars_of(sep)
+        if not pc:
+            raise ValueError('empty separator')
+        sc = list(chars_of(self))
+        res, end, i = [], len(sc), len(sc) - len(pc)
+        while i >= 0 and len(res) < maxsplit:
+            if truth(seq_eq(sc[i:i + len(pc)], pc)):
+                res.append(mk(sc[i + len(pc):end]))
+                end = i
+                i -= len(pc)
+            else:
+                i -= 1
+        res.append(mk(sc[:end]))
+        return res[::-1]
+
+    def removeprefix(self, p):
+        return mk(chars_of(self)[len(chars_of(p)):]) if SymStr.startswith(self, p) else mk(chars_of(self))
+
+    def removesuffix(self, p):
+        n = len(chars_of(p))
+        return mk(chars_of(self)[:len(chars_of(self)) - n]) if (n and SymStr.endswith(self, p)) else mk(chars_of(self))
+
+    def _pad(self, width, fill, left, right):
+        sc = list(chars_of(self))
+        fc = chars_of(fill)
+        if len(fc) != 1:
+            raise TypeError('The fill character must be exactly one character long')
+        return mk([fc[0]] * left + sc + [fc[0]] * right)
+
+    def ljust(self, width, fill=' '):
+        return SymStr._pad(self, width, fill, 0, max(0, width - len(chars_of(self))))
+
+    def rjust(self, width, fill=' '):
+        return SymStr._pad(self, width, fill, max(0, width - len(chars_of(self))), 0)
+
+    def center(self, width, fill=' '):
+        n = len(chars_of(self))
+        marg = max(0, width - n)
+        left = marg // 2 + (marg & width & 1)       # CPython's rounding
+        return SymStr._pad(self, width, fill, left, marg - left)
+
     def splitlines(self, keepends=False):
         if keepends:
             raise Unsupported('splitlines(keepends)')
